@@ -155,7 +155,7 @@ fn short(loc: &str) -> String {
 
 fn main() {
     let rep = Reporter::from_args("C16");
-    rep.rule("all 21 template constructors x every parameter set of the catalogue (boundary-valid values included) x instances x n in {0,1,5,25|40} x seeds; each run observed through the step-observer hook (loop-pass start/end with stack height and population size); distinct_nontrivial = distinct (template, parameters, instance, n, seed, condition kind, evaluator) runs");
+    rep.rule("all 21 template constructors (plus two assemblies of the generic ga::ga / es::es loops with other shipped selection / crossover / mutation / repair / archive / replacement components) x every parameter set of the catalogue (boundary-valid values included) x instances x n in {0,1,5,25|40} x seeds; each run observed through the step-observer hook (loop-pass start/end with stack height and population size); distinct_nontrivial = distinct (template, parameters, instance, n, seed, condition kind, evaluator) runs");
     rep.assume("valid parameters are those fixed in harness/src/templates.rs (DESIGN.md C16); harness problems only");
     let seeds = rep.tier.pick(30usize, 6000usize);
     let cases = templates::cases(rep.quick(), rep.seed, seeds);
